@@ -192,6 +192,24 @@ def _(f, a):
     return f.assign.bloc[key](_fill(a[1]))
 
 
+@op('assign_bloc_series', lambda rng, s: [rng.choice(['pattern', 'pattern', 'notna']), rng.choice(['series', 'apply']), rng.randint(0, 2 ** 20)])
+def _(f, a):
+    # the coordinate form of bloc assignment: a Series labelled by (row label, column label), given or produced by apply
+    import static_frame as sf
+    if a[0] == 'notna':
+        key = f.notna()
+    else:
+        bits = a[2]
+        arr = np.array([[(bits >> ((i * f.shape[1] + j) % 20)) & 1 for j in range(f.shape[1])] for i in range(f.shape[0])], dtype=bool).reshape(f.shape)
+        key = sf.Frame(arr, index=f.index, columns=f.columns)
+    rl, cl = list(f.index), list(f.columns)
+    code = lambda lab: 1000 + 10 * rl.index(lab[0]) + cl.index(lab[1])
+    if a[1] == 'apply':
+        return f.assign.bloc[key].apply(lambda s: sf.Series([code(l) for l in s.index], index=s.index))
+    sel = f.bloc[key]
+    return f.assign.bloc[key](sf.Series([code(l) for l in sel.index], index=sel.index))
+
+
 @op('bloc', lambda rng, s: [rng.randint(0, 2 ** 20)])
 def _(f, a):
     import static_frame as sf
@@ -568,7 +586,7 @@ def classify_layout_difference(case, ra, rb):
     rows = case['spec']['rows']
     if ra[0] == rb[0] == 'ok' and _values_equiv(ra, rb):
         # identical labels and cell values; only per-column dtypes differ: whole-block retyping
-        if name == 'assign_bloc_elem':
+        if name in ('assign_bloc_elem', 'assign_bloc_series'):
             return 'F19'
         if name in ('fillna', 'fillna_forward', 'fillna_backward', 'fillna_leading', 'fillna_trailing'):
             return 'F35'
